@@ -476,10 +476,11 @@ func runC17(c *Ctx) {
 		}
 	}
 
-	// exhaustive mutation sequences
-	goLen, coqLen := c.Scale(4, 5), c.Scale(2, 3)
-	var rec func(prefix []kvOp, depth int)
-	rec = func(prefix []kvOp, depth int) {
+	// exhaustive mutation sequences, up to renaming: the backends are symmetric in bucket, key and value
+	// names, so only sequences that introduce buckets, keys and values in increasing order are run
+	goLen, coqLen := c.Scale(5, 6), c.Scale(2, 3)
+	var rec func(prefix []kvOp, depth, nb, nk, nv int)
+	rec = func(prefix []kvOp, depth, nb, nk, nv int) {
 		if len(prefix) > 0 {
 			ops := interleave(prefix)
 			for _, be := range bes {
@@ -493,12 +494,25 @@ func runC17(c *Ctx) {
 			return
 		}
 		for _, m := range muts {
-			rec(append(prefix, m), depth-1)
+			if m.B > nb || m.K > nk || (m.Kind == "put" && m.V > nv+1) {
+				continue
+			}
+			b2, k2, v2 := nb, nk, nv
+			if m.Kind != "flush" && m.Kind != "cancel" && m.B == nb {
+				b2 = nb + 1
+			}
+			if (m.Kind == "put" || m.Kind == "del") && m.K == nk {
+				k2 = nk + 1
+			}
+			if m.Kind == "put" && m.V == nv+1 {
+				v2 = nv + 1
+			}
+			rec(append(prefix, m), depth-1, b2, k2, v2)
 		}
 	}
-	rec(nil, goLen)
+	rec(nil, goLen, 0, 0, 0)
 	res.Exhaustive = true
-	res.Explored = map[string]any{"exhaustive_len_go": goLen, "exhaustive_len_go_bolt": goLen - 1, "exhaustive_len_coq": coqLen, "alphabet": len(muts)}
+	res.Explored = map[string]any{"exhaustive_up_to_renaming_of_buckets_keys_values": true, "exhaustive_len_go": goLen, "exhaustive_len_go_bolt": goLen - 1, "exhaustive_len_coq": coqLen, "alphabet": len(muts)}
 
 	// random longer sequences with explicit reads
 	all := append(append([]kvOp(nil), muts...), kvReads()...)
